@@ -77,6 +77,8 @@ func runC12(c *Ctx) {
 	// shared rule: an object counts as present only together with its size (rules_c09.go)
 	objectPresenceRule(c, "R7", getStoreFlow(p))
 	c12Order(c)
+	c12CommitReuse(c)
+	c12ExactNames(c)
 	rw := p.Fn("git/githistory", "(*Rewriter).Rewrite")
 	rt := p.Fn("git/githistory", "(*Rewriter).rewriteTree")
 	if rw == nil || rt == nil {
@@ -632,4 +634,105 @@ func liveSources(v ssa.Value) []ssa.Value {
 	}
 	walk(v, 0)
 	return out
+}
+
+// c12CommitReuse (R1, reuse of the original commit): the original commit object is kept only when the rewritten
+// commit — tree AND parents and everything else — equals it. Reusing it because its own tree is unchanged keeps a
+// commit whose parent was rewritten attached to the un-migrated parent. Decided in Rewrite: every path on which
+// the new id is a copy of the old id (no WriteCommit) runs through the true edge of (*Commit).Equal(original,
+// rewritten) where `rewritten` is the commit literal built in this iteration.
+func c12CommitReuse(c *Ctx) {
+	p := c.P
+	fn := p.Fn("git/githistory", "(*Rewriter).Rewrite")
+	if fn == nil {
+		c.Missing("R1", "(*githistory.Rewriter).Rewrite", "not found")
+		return
+	}
+	writes := CallsIn(fn, "(*github.com/git-lfs/gitobj/v2.ObjectDatabase).WriteCommit")
+	caches := CallsIn(fn, "(*git/githistory.Rewriter).cacheCommit")
+	if len(writes) == 0 || len(caches) == 0 {
+		c.Missing("R1", "WriteCommit / cacheCommit in Rewrite", "not found")
+		return
+	}
+	pass := PassEdges(fn, func(cond ssa.Value) (bool, bool) {
+		cc, ok := cond.(*ssa.Call)
+		if !ok || !strings.HasSuffix(CalleeName(&cc.Call), ".Commit).Equal") {
+			return false, false
+		}
+		// one operand is the literal carrying the rewritten parents and tree
+		for _, a := range CallArgs(&cc.Call) {
+			if al, isAl := Unwrap(a).(*ssa.Alloc); isAl {
+				fl := literalFields(al)
+				if fl["ParentIDs"] != nil && fl["TreeID"] != nil {
+					return true, true
+				}
+			}
+		}
+		return false, false
+	})
+	// reaching cacheCommit without having written a commit is allowed only through the Equal edge
+	cut := EdgeSet(pass)
+	for _, w := range writes {
+		for i := range w.Block().Succs {
+			cut[Edge{w.Block(), i}] = true
+		}
+	}
+	loops := Loops(fn)
+	for i, cc := range caches {
+		entry := fn.Blocks[0]
+		if l := LoopOf(loops, cc.Block()); l != nil {
+			entry = l.Body
+		}
+		reach := InstrReachable(entry, cc, cut, nil)
+		c.Check(!reach && nonVacuous(pass), "R1", fmt.Sprintf("commit:original-reused-only-if-equal#%d", i), p.InstrPos(cc), "an original commit is kept only when the whole rewritten commit equals it",
+			"the original commit object can be kept without the rewritten commit (parents included) having been compared equal to it: a commit whose own tree is unchanged stays attached to its un-migrated parent, and the migrated branch still reaches the raw blobs")
+	}
+}
+
+// c12ExactNames (R2, --no-rewrite lookup): tree entries are found by their exact name; a case-insensitive match
+// picks a sibling that differs only in case.
+func c12ExactNames(c *Ctx) {
+	p := c.P
+	fn := p.Fn("commands", "findEntry")
+	if fn == nil {
+		c.Missing("R2", "commands.findEntry", "not found")
+		return
+	}
+	bad := CallsInDeep(fn, "strings.EqualFold", "strings.ToLower", "strings.ToUpper", "strings.HasPrefix", "strings.Contains")
+	exact := false
+	var blocks []*ssa.BasicBlock
+	for _, f := range WithAnon(fn) {
+		blocks = append(blocks, f.Blocks...)
+	}
+	for _, b := range blocks {
+		// as a branch condition, or as the value a predicate closure returns (slices.IndexFunc)
+		var conds []ssa.Value
+		if ifi, ok := lastInstr(b).(*ssa.If); ok {
+			conds = append(conds, ifi.Cond)
+		}
+		if r, ok := lastInstr(b).(*ssa.Return); ok && b.Parent() != fn && len(r.Results) == 1 {
+			conds = append(conds, r.Results[0])
+		}
+		for _, cv := range conds {
+			if op, x, y, isCmp := BinCmp(cv); isCmp && op == token.EQL {
+				_, f1, _, ok1 := FieldOf(x)
+				_, p2 := Unwrap(y).(*ssa.Parameter)
+				_, f2, _, ok2 := FieldOf(y)
+				_, p1 := Unwrap(x).(*ssa.Parameter)
+				isFV := func(v ssa.Value) bool {
+					v = Unwrap(v)
+					if ld, ok := v.(*ssa.UnOp); ok && ld.Op == token.MUL {
+						v = ld.X
+					}
+					_, ok := v.(*ssa.FreeVar)
+					return ok
+				}
+				fv2, fv1 := isFV(y), isFV(x)
+				if ok1 && f1 == "Name" && (p2 || fv2) || ok2 && f2 == "Name" && (p1 || fv1) {
+					exact = true
+				}
+			}
+		}
+	}
+	c.Check(len(bad) == 0 && exact, "R2", "findEntry:exact-name", p.Pos(fn.Pos()), "a tree entry is looked up by exact name equality", "tree entries are not looked up by exact name (case-folding or partial match): with siblings that differ only in case the wrong file is converted and the requested path resolves to another file's content")
 }
